@@ -407,8 +407,7 @@ def r7(run, db):
     cs = creation_sites(db, blk)
     if links and mr and cs:
         l = links[0]
-        fe = false_edge(sb, l)
-        te = true_edge(sb, l)
+        te, fe = implied_edges(sb, l)
         reach = edge_path_sites(sb, [fe]) if fe else None
         run.check(fe is not None and mr[0].site not in reach and cs[0][1] not in reach, "S|refused-link-fails", "a refused link leaves start without mark_running and without creating the loop task",
                   "a refused link is ignored: the child runs unlinked (or is marked running)", l.where())
@@ -424,7 +423,7 @@ def r7(run, db):
         ls = [c for c in par.calls() if c.is_("ActorCell::try_link")]
         if ls:
             l = ls[0]
-            fe = false_edge(par, l)
+            fe = implied_edges(par, l)[1]
             reach = edge_path_sites(par, [fe]) if fe else set()
             found = True
             run.check(fe is not None and csite not in reach, "T|refused-link-fails", "thread-local start: a refused link returns before the builder (and thus pre_start) exists",
